@@ -10,6 +10,8 @@ MODULES = ['nl.bsn', 'nl.onderwijsnummer', 'pl.nip', 'pl.regon', 'pt.nif', 'dk.c
            'vn.mst', 'za.tin', 'th.pin', 'lt.pvm', 'fi.veronumero', 'eg.tn', 'ma.ice',
            'es.nie', 'es.cif', 'gb.vat', 'fr.tva', 'ie.pps', 'cr.cpf', 'cr.cpj', 'do.rnc', 'fi.associationid', 'fr.siret', 'in_.pan',
            'ke.pin', 'li.peid', 'md.idno', 'nl.btw', 'no.mva',
+           'ar.dni', 'ar.cbu', 'at.businessid', 'at.vnr', 'br.cnpj', 'ca.bn', 'ca.bc_phn', 'ch.esr', 'ch.vat', 'cn.uscc', 'cr.cr',
+           'de.idnr', 'de.wkn', 'dz.nif', 'eu.banknote', 'eu.eic', 'fo.vn',
            'no.fodselsnummer', 'fi.hetu', 'ch.ssn', 'lv.pvn', 'pl.pesel', 'ee.ik']
 
 
